@@ -33,7 +33,7 @@ def S(comp, proj, checks, quick, thorough, params=None, explicit=None, exhaustiv
             "params": params or {}, "explicit": explicit, "exhaustive": exhaustive, "direct": direct}
 
 
-def sim_stream(proj, chk, extra=None, nq=3000, nt=150000):
+def sim_stream(proj, chk, extra=None, nq=8000, nt=150000):
     p = {"kinds": ["loaded", "loaded", "parts", "handbuilt"]}
     p.update(extra or {})
     return S("sim", proj, chk, nq, nt, p)
@@ -286,6 +286,8 @@ def run_c20(tier, seed, escalate=False, replay=None):
                         problem = f"two calls in one process (PYTHONHASHSEED={hs}, unrelated work in between) returned different results"
                     elif r["mutated"]:
                         problem = f"argument modified: {r['mutated']}"
+                    elif r.get("history"):
+                        problem = r["history"]
                 vals = list(rs.items())
                 for hs, r in vals[1:]:
                     if r["r1"] != vals[0][1]["r1"]:
@@ -301,7 +303,8 @@ def run_c20(tier, seed, escalate=False, replay=None):
         cov["rule"] = ("cases generated from VERIF_SEED (loader descriptions, ISA tables, program texts, whole library "
                        "pipelines); each is run twice per interpreter with unrelated work in between, in fresh "
                        "interpreters with PYTHONHASHSEED in {0,1,2,random}; arguments are compared with their pre-call "
-                       "copies; distinct = distinct case JSON")
+                       "copies; a call history 'same argument object edited in place between two calls' must give the "
+                       "result of a fresh copy; distinct = distinct case JSON")
         # the tie to the one pure value of the model: the ordinary components on the same inputs
         if replay is None:
             stats = engine.Stats()
